@@ -26,11 +26,12 @@ struct SchedConfig
    uint64_t stepCap = 40000;    // livelock bound
    bool realCv = false;         // true: WaitCondition runs its real std::condition_variable code; the scheduler then simulates the pthread_cond_* calls underneath
                                 //       (symbol interposition) instead of replacing Wait()/Notify() wholesale through the condWait/condNotify hooks
+   int pEintrPct = 0;           // probability that a blocking select()/send()/recv() of a simulated thread fails with EINTR (a signal handler ran): callers must simply retry
    int pSpuriousCvPct = 0;      // realCv: probability that a pthread_cond wait is woken without a signal (legal for a condition variable)
    std::vector<int> replay;     // if non-empty: recorded decisions (thread ids, -1 = advance clock) fed back instead of the PRNG
 };
 
-struct SchedStats {uint64_t steps = 0, switches = 0, timeoutsFired = 0, spuriousPolls = 0, preemptions = 0, maxThreads = 0, clockAdvances = 0, cvWaits = 0, cvSignals = 0, cvSpurious = 0, cvSignalsNoWaiter = 0;};
+struct SchedStats {uint64_t steps = 0, switches = 0, timeoutsFired = 0, spuriousPolls = 0, preemptions = 0, maxThreads = 0, clockAdvances = 0, cvWaits = 0, cvSignals = 0, cvSpurious = 0, cvSignalsNoWaiter = 0, eintrs = 0;};
 
 // --- life cycle (called by the workload, on the main thread of the forked child)
 void Begin(const SchedConfig & cfg);                 // registers the calling thread as thread 0 and installs the hooks
